@@ -210,10 +210,12 @@ func findInlineNode(file *ast.File, comment *ast.Comment, fset *token.FileSet) (
 			return false
 		}
 
+		nodeStartLine := fset.PositionFor(n.Pos(), false).Line
 		nodeEndLine := fset.PositionFor(n.End(), false).Line
 
-		// Check if this node ends on the same line as the comment
-		if nodeEndLine == commentLine {
+		// Check if this node starts or ends on the same line as the comment:
+		// `{ // @ignore CODE` trails the opening brace of a multi-line literal or block
+		if nodeStartLine == commentLine || nodeEndLine == commentLine {
 			hasCodeOnLine = true
 			return false // Found code, can stop
 		}
